@@ -205,10 +205,49 @@ def plan(tier, seed):
     inst = G.installed_schemas()
     sh = [dict(name=f"installed-{n}", kind="installed", schema=n, version=list(v)) for n, v, _ in inst]
     sh += [dict(name=f"generated-{i}", kind="generated", i=i) for i in range(8)]
+    sh += [dict(name="units", kind="units")]
     return sh
 
 
+def check_units(rec):
+    """Every unit of the unit registry, as PintUnit and inside a PintQuantity built from (magnitude, unit): whatever a
+    schema accepts as valid instance survives JSON / YAML / bytes."""
+    from metador_core.schema import MetadataSchema
+    from metador_core.schema import types as T
+
+    class UnitsProbe(MetadataSchema):
+        q: T.PintQuantity
+        u: T.PintUnit
+
+    names = sorted(n for n in dir(T.PintUnit("meter")._REGISTRY) if n.isidentifier() and not n.startswith("_"))
+    seen, failed = 0, set()
+    for name in names:
+        for mag in (25.5, 0):
+            try:
+                o = UnitsProbe(q=T.PintQuantity(mag, name), u=T.PintUnit(name))
+            except Exception:  # noqa: BLE001 - not a unit / not accepted
+                continue
+            seen += 1
+            for form, ser in (("json", o.json), ("yaml", o.yaml), ("bytes", lambda: bytes(o))):
+                try:
+                    back = UnitsProbe.parse_raw(ser())
+                    ok = back == o
+                    why = f"{back.q} / {back.u}"
+                except Exception as e:  # noqa: BLE001
+                    ok, why = False, f"{type(e).__name__}: {str(e)[:150]}"
+                if not ok and (form, "raises" if "Error" in why else "differs") not in failed:
+                    failed.add((form, "raises" if "Error" in why else "differs"))
+                    rec.fail(f"C12:quantity-roundtrip-{'raises' if 'Error' in why else 'differs'}:{form}", dict(kind="units", unit=name, magnitude=mag),
+                             f"PintQuantity({mag}, {name!r}) is a valid field value, serialised as {str(o.q)!r}: {why}", "parses back equal")
+            rec.case(nt_key=["unit", name, mag], classes=["unit_registry_member"], sample=None)
+    rec.exhaustive["unit_registry"] = True
+    rec.notes.append(f"{seen} accepted (unit, magnitude) pairs from {len(names)} registry names")
+
+
 def run_shard(shard, tier, seed, rec):
+    if shard["kind"] == "units":
+        check_units(rec)
+        return
     if shard["kind"] == "installed":
         from metador_core.plugins import schemas
 
@@ -227,6 +266,9 @@ def run_shard(shard, tier, seed, rec):
 
 def replay(rp, rec):
     try:
+        if rp["case"].get("kind") == "units":
+            check_units(rec)
+            return
         run_case(rp["case"], rec)
     except Violation as v:
         rec.fail(v.signature, rp["case"], v.observed, v.expected)
